@@ -267,6 +267,15 @@ def run(cx: Cx):
                              "add_system: the scan is left early without inserting and the system is appended",
                              where=cx.where(add, e.line), path=pl)
                 continue
+            # the tail append is the answer of a scan that found nothing: the scan loop itself must lie on the path
+            # (a scan that is skipped for some priorities - `if s.priority > 0:` - appends without having looked)
+            scans = [x for x in p.events[:p.events.index(e)] if x.kind == 'loop' and
+                     (_loop_scans_queue(x, Q))]
+            if not scans:
+                cx.violation('R-GUARD', add.qualname, 'scan-runs-before-tail-append',
+                             f"add_system appends at the tail on a path [{p.cond!r}] that never scanned the queue for a strictly lower "
+                             f"priority: a system that outranks queued systems is placed behind them", where=cx.where(add, e.line), path=pl)
+                continue
         cx.ok('R-GUARD', f"first-strictly-lower insertion on path with {len(scan)} scan iteration(s)",
               where=cx.where(add, e.line), function=add.qualname, path=pl, kind=e.data.get('store'))
     cx.floor('add_system success paths', n_success, 1)
@@ -275,6 +284,23 @@ def run(cx: Cx):
     check_keyed_insert(cx, add.qualname, RLOC, REG, Attr(s_sym, 'id'), s_sym, unroll=2)
 
     check_remove_pairing(cx)
+    # bookkeeping kept next to the queue (a parallel list of priorities, an index, ...) must follow removals as well as
+    # registrations, otherwise it is out of step with the queue after the first removal
+    core_fields = {'systems', 'execution_queue', 'component_pools', 'timestep', 'model'}
+    def _written(fn_):
+        out = set()
+        for w, ch in cx.effects.trans_writes(fn_):
+            if w.loc and w.loc[0] == sm.qualname and w.loc[1] not in core_fields:
+                out.add(w.loc[1])
+        return out
+    aux_add, aux_rem = _written(add), _written(rem)
+    if aux_add - aux_rem:
+        cx.violation('R-PAIR', add.qualname, 'auxiliary-scheduler-state-follows-removals',
+                     f"add_system maintains {sorted(aux_add - aux_rem)} next to the queue but remove_system never updates it: after a "
+                     f"removal the two are out of step and later registrations are placed by stale data", where=cx.where(add))
+    else:
+        cx.ok('R-PAIR', 'no auxiliary scheduler state is kept by add_system alone', where=cx.where(add), function=add.qualname,
+              auxiliary=sorted(aux_add))
     # presence of a system is decided by its id, never by the truth value of the system object
     check_presence_not_truthiness(cx, [add.qualname, rem.qualname, CORE + 'SystemManager.execute_systems'])
 
@@ -480,6 +506,17 @@ def _insertion_shape(cx, add, ps):
     if has_while:
         return 'unknown', 'the position is searched with a while loop'
     return 'scan', ''
+
+
+def _loop_scans_queue(lp, Q) -> bool:
+    it = strip_versions(lp.data.get('iter'))
+    if it == Q:
+        return True
+    if isinstance(it, App) and it.fn in ('enumerate', 'reversed') and it.args and strip_versions(it.args[0]) == Q:
+        return True
+    if isinstance(it, App) and it.fn == 'range':
+        return any(strip_versions_in_len(a) == App('len', (Q,)) for a in it.args)
+    return False
 
 
 def _after_scan_hit(p, e) -> bool:
